@@ -374,16 +374,19 @@ class WorkerController:
 
     def shutdown(self) -> None:
         if not self._down and not self._shutdown_sent:
-            try:
-                self.sendcommand("shutdown")
-            except OSError:
-                pass
+            self.sendcommand("shutdown")
             self._shutdown_sent = True
 
     def sendcommand(self, name: str, **kwargs: object) -> None:
         """Send a named parametrized command to the other side."""
         self.log(f"sending command {name}(**{kwargs})")
-        self.channel.send((name, kwargs))
+        try:
+            self.channel.send((name, kwargs))
+        except OSError:
+            # The worker is gone. The end marker of its channel puts an
+            # "errordown" event on the queue (if it has not done so already),
+            # and handling that event reassigns whatever was sent here.
+            self.log(f"could not send command {name}: channel closed")
 
     def notify_inproc(self, eventname: str, **kwargs: object) -> None:
         self.log(f"queuing {eventname}(**{kwargs})")
